@@ -55,7 +55,7 @@ func genC11(d *Draw) Case {
 	defs := &Definitions{}
 	g := &Graph{ID: "P1", Executable: true}
 	defs.Procs = []*Graph{g}
-	refs := []string{"sA", "sB", "mA", "mB"}
+	refs := []string{"sA", "sB", "mA", "mB", "mA#op1"} // "m#op": a message definition with an operation reference
 	kindOf := func(r string) string {
 		if strings.HasPrefix(r, "m") {
 			return "message"
@@ -130,6 +130,13 @@ func genC11(d *Draw) Case {
 	// event history: matching, non-matching, repeated
 	ne := d.N(9)
 	pool := append(append([]string{}, used...), "sX", "mX", refs[d.N(len(refs))])
+	// message events with, without and with another operation than the listeners' definitions
+	for _, u := range used {
+		if strings.HasPrefix(u, "m") {
+			base, _, _ := strings.Cut(u, "#")
+			pool = append(pool, base, base+"#op1", base+"#op2")
+		}
+	}
 	c := &ProcCase{Buf: d.N(17), Hold: d.N(3)}
 	racy := d.N(4) == 3
 	var evd []string
